@@ -427,6 +427,63 @@ func varints(k *run.K, e entry) {
 	k.Count("class_varint", int64(n))
 }
 
+// semanticMutations feeds well-formed encodings of trees that the format can spell but a geometry cannot
+// be: one member subtree re-typed to another coordinate type (payload re-strided to match, so every length
+// field stays consistent), or replaced by a member of a type its parent does not admit. WKB (mixed byte
+// order) and WKT.
+func semanticMutations(k *run.K, t model.Tree, i, rounds int) {
+	var paths [][]int
+	var walk func(n model.Tree, path []int)
+	walk = func(n model.Tree, path []int) {
+		if len(path) > 0 {
+			paths = append(paths, append([]int(nil), path...))
+		}
+		if n.Type == geom.TypePolygon || n.Type == geom.TypeLineString || n.Type == geom.TypePoint {
+			return
+		}
+		for j, c := range n.Kids {
+			walk(c, append(path, j))
+		}
+	}
+	walk(t, nil)
+	if len(paths) == 0 {
+		return
+	}
+	var replace func(n model.Tree, path []int, f func(model.Tree) model.Tree) model.Tree
+	replace = func(n model.Tree, path []int, f func(model.Tree) model.Tree) model.Tree {
+		if len(path) == 0 {
+			return f(n)
+		}
+		if path[0] >= len(n.Kids) { // an earlier replacement removed this position
+			return n
+		}
+		out := n
+		out.Kids = append([]model.Tree(nil), n.Kids...)
+		out.Kids[path[0]] = replace(n.Kids[path[0]], path[1:], f)
+		return out
+	}
+	n := 0
+	for r := 0; r < rounds; r++ {
+		m := t
+		for c := k.Rng.Range(1, 2); c > 0; c-- {
+			path := paths[k.Rng.Intn(len(paths))]
+			m = replace(m, path, func(sub model.Tree) model.Tree {
+				if k.Rng.Chance(2, 3) {
+					ct := model.CTypes[k.Rng.Intn(4)]
+					return model.SetZM(k.Rng, sub, ct, model.ValueOpts{Simple: true}, true)
+				}
+				return model.RandTree(k.Rng, model.Types[k.Rng.Intn(7)], model.CTypes[k.Rng.Intn(4)], 1, model.ValueOpts{Simple: true})
+			})
+		}
+		w := &codec.WKBWriter{Order: func(e int) bool { return (i+r+e)%3 == 0 }}
+		w.Write(m)
+		feed(k, "wkb", w.Buf)
+		feed(k, "wkt", []byte(codec.Spelling{R: k.Rng}.Print(m)))
+		n += 2
+	}
+	k.Count("class_semantic", int64(n))
+}
+
 var wktTok = regexp.MustCompile(`[A-Za-z]+|[-+]?[0-9]*\.?[0-9]+(?:[eE][-+]?[0-9]+)?|[(),]`)
 var jsonTok = regexp.MustCompile(`"(?:[^"\\]|\\.)*"|-?[0-9]+(?:\.[0-9]+)?(?:[eE][-+]?[0-9]+)?|true|false|null|[\[\]{},:]`)
 
@@ -534,6 +591,14 @@ func runAll(c *run.Ctx) {
 					if e, ok := mk(k); ok {
 						counts32(k, e)
 					}
+				})
+			}
+			if f == "wkb" {
+				c.Case("semantic:"+f, i, func(k *run.K) {
+					t := corpusTree(run.NewRng(c.Seed, "corpus", f, fmt.Sprint(i)), i)
+					k.In("tree", t.String())
+					k.Nontrivial(f + "semantic" + t.String())
+					semanticMutations(k, t, i, c.N(200, 2000))
 				})
 			}
 			if f == "twkb" {
